@@ -16,6 +16,7 @@ import FluteModel.ToiWire
     drain                                        -> done <tois…> | done -
     fdt                                          -> fdt <sorted tois…> | fdt -
     wire <toi> <tsi>   (stateless: header builder + parser on any u128)   -> wire <toi read back> <O> <H> <field hex>
+    freerun <n>        (n objects without TOI added, published, all transferred to the end) -> sent <sorted tois…>
     churn <n>          (n times: allocate a handle, drop it)              -> ok <last value>
     allocn <n>         (n handles h=1000000+i, all kept)                  -> ok <first> <last> | HANG
 -/
@@ -102,6 +103,32 @@ def churn (s : Sys) : (n last : Nat) → Sys × String
     | .hang => (s, "HANG")
     | .panic _ => (s, "PANIC")
 
+/-- `freerun n`: n objects without TOI are added, all are transferred (multiplexed) to completion -/
+def freerun (s : Sys) (tsi n : Nat) : Option (Sys × String) :=
+  let names := (List.range n).map (· + 3000001)
+  let rec adds (s : Sys) (acc : List Nat) : List Nat → Option (Sys × List Nat)
+    | [] => some (s, acc)
+    | k :: r =>
+      match s.step (.add k true) with
+      | .ok (s', .toi v, _) => adds s' (v :: acc) r
+      | _ => none
+  let rec fins (s : Sys) : List Nat → Option Sys
+    | [] => some s
+    | k :: r =>
+      match s.step (.start k) with
+      | .ok (s', .toi _, _) =>
+        match s'.step .drain with
+        | .ok (s'', .done _, _) => fins s'' r
+        | _ => none
+      | _ => none
+  match adds s [] names with
+  | none => none
+  | some (s1, tois) =>
+    match fins s1 names with
+    | none => none
+    | some s2 =>
+      some (s2, showList "sent" (sortNat (tois.map fun v => ToiWire.decode (ToiWire.encode v tsi))))
+
 def step (st : St) (args : List String) : St × String :=
   if st.dead then (st, "DEAD") else
   match args with
@@ -177,6 +204,15 @@ def step (st : St) (args : List String) : St × String :=
     match nat? toi, nat? tsi with
     | some toi, some tsi =>
       if toi < 2 ^ 128 ∧ tsi < 2 ^ 64 then (st, showWire toi tsi) else (st, "bad-op")
+    | _, _ => (st, "bad-op")
+  | ["freerun", n] =>
+    match st.sys, nat? n with
+    | some s, some n =>
+      if 1 ≤ n ∧ n ≤ 16 ∧ s.cur.isNone then
+        match freerun s st.tsi n with
+        | some (s', out) => ({ st with sys := some s' }, out)
+        | none => (st, "bad-op")
+      else (st, "bad-op")
     | _, _ => (st, "bad-op")
   | ["churn", n] =>
     match st.sys, nat? n with
